@@ -787,6 +787,21 @@ impl Model {
                 for (i, v) in self.visible_rows(t, ti) {
                     if Self::matches(&def, pred, &v)? {
                         let r = self.tables[ti].rows[i].clone();
+                        // A row that already carries a delete mark this transaction cannot see as committed (its
+                        // deleter is still active, was rolled back, or committed after this snapshot): the engine's
+                        // Tuple::delete leaves the first mark alone and the statement still counts the row. Both listed
+                        // findings (no write-write conflict detection; a rolled-back DELETE sticks) have exactly this
+                        // crisp shape, so the model follows the engine and keeps judging (exact quirk).
+                        if let Some(d) = r.xmax {
+                            if d != t {
+                                let id = if self.txs[d as usize].state == TxState::Aborted { KF_ABORTED_DELETE } else { KF_NO_WW_CONFLICT };
+                                let only_the_mark = !r.versions.iter().any(|(x, _)| *x != d && self.concurrent(t, *x));
+                                if only_the_mark && self.quirk(id) {
+                                    n += 1;
+                                    continue;
+                                }
+                            }
+                        }
                         if self.concurrent_writer(t, &r) {
                             if !self.hazard(KF_NO_WW_CONFLICT) {
                                 return Err(ErrClass::Conflict);
